@@ -233,6 +233,14 @@ def unexplained(P, fails, known):
     return out
 
 
+def replay_rank(cf):
+    """which failing case becomes the replay: one that also runs on the model (small, shrinkable) before an
+    implementation-side-only case (multi-megabyte files, 1 200-node graphs), then the shortest"""
+    c = cf[0]
+    big = isinstance(c, dict) and (c.get('kind') == 'bigio' or bool(c.get('nomodel')))
+    return (1 if big else 0, len(json.dumps(jsonable(c))))
+
+
 def shrink(P, case, known, budget=400):
     """greedy delta debugging with the property's own candidate generator; keeps a case while the
     implementation still fails the oracle in an unexplained way"""
@@ -433,7 +441,7 @@ def run_check(mod_name, tier, seed, replay=None):
     un_cases = [(c, unexplained(P, f, known)) for c, f in all_fail]
     un_cases = [(c, f) for c, f in un_cases if f]
     if un_cases:
-        c, f = min(un_cases, key=lambda cf: len(json.dumps(jsonable(cf[0]))))
+        c, f = min(un_cases, key=replay_rank)
         small = shrink(P, c, known)
         p, ri, rm, fails, dis = eval_one(P, small)
         path = write_replay(pid, 'violation', dict(kind='failing-input', property=pid, case=small,
@@ -448,7 +456,7 @@ def run_check(mod_name, tier, seed, replay=None):
             un_cases = [(c, unexplained(P, f, known)) for c, f in all_fail]
             un_cases = [(c, f) for c, f in un_cases if f]
         if un_cases:
-            c, f = min(un_cases, key=lambda cf: len(json.dumps(jsonable(cf[0]))))
+            c, f = min(un_cases, key=replay_rank)
             small = shrink(P, c, known)
             p, ri, rm, fails, dis = eval_one(P, small)
             path = write_replay(pid, 'violation', dict(kind='failing-input', property=pid, case=small,
